@@ -5,6 +5,7 @@ PROPERTY = "C43"
 LEAN_MODULES = ["KafVerif.Props.C43"]
 OBLIGATIONS = [
     "KafVerif.C43.contact_refreshes",
+    "KafVerif.C43.join_refreshes",
     "KafVerif.C43.no_early_expiry",
     "KafVerif.C43.no_early_expiry_pass",
     "KafVerif.C43.cleanup_pass",
@@ -87,7 +88,7 @@ def monitor(tr):
 
 
 def run(ck):
-    G.run_property(ck, PROFILE, monitor, n_quick=60, n_thorough=600, nops=45, rule=RULE)
+    G.run_property(ck, PROFILE, monitor, n_quick=200, n_thorough=2000, nops=45, rule=RULE)
 
 
 def replay(ck, path):
